@@ -28,8 +28,8 @@ CLAIMS = {
              'ones (cover columns and final_source) (KEY); cached maps and the memoised hash are write-once — only '
              'readers and first-writers (VacantEntry::insert / Entry::or_insert*) touch the map cache, the cache fields '
              'are never reassigned (WRITEONCE); memo cells are used through get/get_or_init/clone only and every initialiser '
-             'reads data fields only (MEMO). NOT decided: that replay from (cached map + rope) attributes like the wrapped source. Added: both map collectors (map() and the cache-filling tee) feed every mapping to the encoder unconditionally (ENCODE-ALL), a necessary condition of replay transparency; content views forward (DELEG). Round 3: the cache is never traversed, only read under the caller\'s key (KEY); MEMO covers every OnceLock/OnceCell cell; MEMO-RESET. Round 4: ENC-DEDUP — the cached map is produced by an encoder that does not swallow differing segments. TEE-FORWARD registered here as well (the first, cache-filling stream is as good as the wrapped source\'s own). SIBLING-SPLICE registered here as well: the replay streams rope(), which must render to source(). Round 7: COLLECTOR-SIBLING - get_map and the cache-filling tee store announced file names, contents and names in the same shape.',
-        technique='who-may-call / receiver-type allow-list over resolved callees, def-use key provenance on MIR',
+             'reads data fields only (MEMO). NOT decided: that replay from (cached map + rope) attributes like the wrapped source. Added: both map collectors (map() and the cache-filling tee) feed every mapping to the encoder unconditionally (ENCODE-ALL), a necessary condition of replay transparency; content views forward (DELEG). Round 3: the cache is never traversed, only read under the caller\'s key (KEY); MEMO covers every OnceLock/OnceCell cell; MEMO-RESET. Round 4: ENC-DEDUP — the cached map is produced by an encoder that does not swallow differing segments. TEE-FORWARD registered here as well (the first, cache-filling stream is as good as the wrapped source\'s own). SIBLING-SPLICE registered here as well: the replay streams rope(), which must render to source(). Round 7: COLLECTOR-SIBLING - get_map and the cache-filling tee store announced file names, contents and names in the same shape. Round 8: PREFIX-SUM - every (piece, offset) pair built for a rope chunk vector stores 0, a total of the vector it is appended to, or a running accumulator whose next update adds exactly the length of the stored piece; existing pairs are not copied verbatim into a vector that already holds one. Offsets of any other form are reported as unrecognised and not decided.',
+        technique='who-may-call / receiver-type allow-list over resolved callees, def-use key provenance on MIR; sibling cross-checks of collectors and views; symbolic length matching of rope offset accumulators',
         design_ref='§5 C10'),
     'C14': dict(
         category='other',
@@ -54,7 +54,7 @@ CLAIMS = {
         text='Static, for all pairs of values: every data field that `==` compares is fed to the hasher, with named exemptions '
              '(SourceMapSource::name per the statement; fields constant in every constructor) (HASHCOVER); hash cones contain no '
              'address/TypeId/random/time/thread input, no hash-map iteration and construct only FxHasher (HASHDET); the memoised '
-             'hash is a function of the data only (MEMO). NOT decided: absence of accidental collisions, prefix-freeness. Added: HASHALL (no skipped elements in container hashes); RESET/FRESH/PUBLISH-ORDER are registered here too because the hash of a ReplaceSource goes through the sorted accessor. Round 3b: EQ-ALLPATHS registered here as well (a == that accepts early makes unequal values collide by definition). HASH-IN-EQ registered here as well.',
+             'hash is a function of the data only (MEMO). NOT decided: absence of accidental collisions, prefix-freeness. Added: HASHALL (no skipped elements in container hashes); RESET/FRESH/PUBLISH-ORDER are registered here too because the hash of a ReplaceSource goes through the sorted accessor. Round 3b: EQ-ALLPATHS registered here as well (a == that accepts early makes unequal values collide by definition). HASH-IN-EQ registered here as well. Round 8: HASHCOVER all-paths clause - a compared field is fed to the hasher on every path; a path that skips it may only be selected by looking at that field itself.',
         technique='field-access-set comparison of Eq vs Hash cones; forbidden-callee scan over resolved callees',
         design_ref='§5 C20'),
     'C12': dict(
@@ -64,7 +64,7 @@ CLAIMS = {
              '(TABLES, const-evaluated by the compiler, 320 entries); every byte any writer can put into an encoder buffer is a '
              'base64 digit, "," or ";" (ALPHABET, sound over-approximation over all writers incl. helper functions and closures). '
              'NOT decided: VLQ arithmetic, relative-field state, skip rules, the line-only encoder, round-trip equality. Added: LINE-RESET — the decoder resets the running column whenever it advances the line, the full encoder resets its column state whenever it writes a semicolon. Round 3: ENC-FIRST-MAPPED (the line-only encoder takes state from a segment\'s line only when the segment is mapped). Round 4: ENC-DEDUP (the "same original, skip" shortcut compares every per-segment state it records), ENC-OMIT (a tracked field is written as a delta or skipped only after the equality test with the state: no constant digits for an uncompared field), ENCODER-TOTAL (no arithmetic panic in the encoders). Round 6: VLQ-TERMINATED — path-sensitive replay of one loop iteration of the VLQ writer from the loop-head facts: a digit that can be the last one before the writer returns is < 32, a digit followed by another is >= 32. DECODER-WIDTH — the accumulator of the reader is at least 35 bits wide and the overflow guard skips a digit only beyond position 30 (all 7 digits of a 32-bit field are kept).',
-        technique='compiler const-evaluation of the codec tables + constant byte-set dataflow into the encoder buffers',
+        technique='compiler const-evaluation of the codec tables + constant byte-set dataflow into the encoder buffers; zone-domain abstract interpretation of the encoder / decoder arithmetic; dominator / path rules over encoder state fields',
         design_ref='§5 C12'),
     'C15': dict(
         category='other',
@@ -83,8 +83,8 @@ CLAIMS = {
              'has no recursion and its only loop consumes a slice iterator (DECODER-TOTAL; dev and, in thorough, release '
              'configuration); SourceMap::from_json/from_slice/from_reader add no panic site of their own and propagate every error '
              '(JSON-ENTRY; simd-json itself assumed total). NOT decided: panic-freedom of the streaming cone (≈250 arithmetic asserts, '
-             'indexing on map-supplied lines/indices) — reading found real panics there for wild maps; no discharge analysis is in reach. Added: CLAMP — ReplaceSource::source()/rope() slice the inner text only with bounds clamped to its length (replacement positions beyond the end are in the documented domain). Round 4: INDEX-GUARDED — forward abstract interpretation of every body in the zone domain (difference constraints over integer locations and container lengths; guards, resize/growth loops, len()-derived indices, closure entry facts, widening) proves `index < len` for 52 of the 70 `container[usize]` accesses and MIR bounds checks of the crate; the other 18 are listed with the invariant they rely on (grouped by element type, counted) and any additional unproven access is reported. Decides the upper bound only (not `x - 1` underflow, not range slicing / char boundaries). ENCODER-TOTAL — every overflow-checked subtraction / addition / shift and every table index of the mappings encoders is discharged by the zone analysis (found F9: `current_original_line + 1` overflowed for a wild map, fixed as 7ac4a9a); one subtraction relies on the sorted-segments domain and is listed as assumed. VIEWS-TOTAL — the content views of ReplaceSource do no unchecked position arithmetic. After round 6: the zone engine is wrap-aware (a subtraction or addition counts as exact only when proven to stay inside the type; otherwise the result is tainted and any index built from it, also for checked get() accesses, is unproven) - found F10 and F11; POSITION-ADD - u32 arithmetic on the generated position a child reports to a composite is proven, widened or listed (found F12).',
-        technique='interval/range discharge of MIR Assert terminators with guard provenance; loop/recursion census; panic-site census',
+             'indexing on map-supplied lines/indices) — reading found real panics there for wild maps; no discharge analysis is in reach. Added: CLAMP — ReplaceSource::source()/rope() slice the inner text only with bounds clamped to its length (replacement positions beyond the end are in the documented domain). Round 4: INDEX-GUARDED — forward abstract interpretation of every body in the zone domain (difference constraints over integer locations and container lengths; guards, resize/growth loops, len()-derived indices, closure entry facts, widening) proves `index < len` for 52 of the 70 `container[usize]` accesses and MIR bounds checks of the crate; the other 18 are listed with the invariant they rely on (grouped by element type, counted) and any additional unproven access is reported. Decides the upper bound only (not `x - 1` underflow, not range slicing / char boundaries). ENCODER-TOTAL — every overflow-checked subtraction / addition / shift and every table index of the mappings encoders is discharged by the zone analysis (found F9: `current_original_line + 1` overflowed for a wild map, fixed as 7ac4a9a); one subtraction relies on the sorted-segments domain and is listed as assumed. VIEWS-TOTAL — the content views of ReplaceSource do no unchecked position arithmetic. After round 6: the zone engine is wrap-aware (a subtraction or addition counts as exact only when proven to stay inside the type; otherwise the result is tainted and any index built from it, also for checked get() accesses, is unproven) - found F10 and F11; POSITION-ADD - u32 arithmetic on the generated position a child reports to a composite is proven, widened or listed (found F12). Round 8: CLAMP-ORDER - every integer clamp(min, max) is called with limits proven ordered on every path (zone engine; the engine now also applies exit summaries of crate-local helper functions at their call sites). DECODER-TOTAL accepts a per-byte counter kept in a loop-free private helper that is called once per input byte. SLICE-ORDER - every byte_slice(start..end) call on a rope / source text (9 sites) has start <= end proven in the zone state or is one of two listed sites in ReplaceSource::stream_chunks; a function that forwards the range it was given is not a site. NOT decided there: end <= length of the text.',
+        technique='interval/range discharge of MIR Assert terminators with guard provenance; forward abstract interpretation of MIR in the zone (difference-bound) domain with closure entry facts and helper exit summaries; loop/recursion census; panic-site census',
         design_ref='§5 C17'),
     'C07': dict(
         category='other',
@@ -115,8 +115,8 @@ CLAIMS = {
              'bounds from the char_indices table or the text length (UNCHECKED-CALLERS + witnesses that the trait is private and the '
              'inherent method is `unsafe`); no hand-written unsafe impl; an unclassified unsafe operation is reported (fail-closed). '
              'NOT decided (undischarged, stated in evidence): that binary-search results index the right piece, that table entries are ordered '
-             'char boundaries, schedules. Round 3b: RANGE-VALIDATED — a safe function that indexes the piece vector unchecked validates the requested range first, for every present/absent combination of bounds (directly or in a validator whose error is propagated).',
-        technique='unsafe-operation inventory from MIR/HIR + per-class provenance / dominance / constant-byte-set rules + compile-fail witnesses',
+             'char boundaries, schedules. Round 3b: RANGE-VALIDATED — a safe function that indexes the piece vector unchecked validates the requested range first, for every present/absent combination of bounds (directly or in a validator whose error is propagated). Round 8: PREFIX-SUM - every (piece, offset) pair built for a rope chunk vector stores 0, a total of the vector it is appended to, or a running accumulator whose next update adds exactly the length of the stored piece; existing pairs are not copied verbatim into a vector that already holds one. Offsets of any other form are reported as unrecognised and not decided. (These offsets are what byte_slice_unchecked uses to pick and cut pieces.)',
+        technique='unsafe-operation inventory from MIR/HIR + per-class provenance / dominance / constant-byte-set rules + compile-fail witnesses; symbolic length matching of rope offset accumulators',
         design_ref='§5 C19'),
     'C01': dict(
         category='other',
@@ -134,8 +134,8 @@ CLAIMS = {
         text='Static: the leaves the property rests on — every mapping an OriginalSource emits is the identity (original line/column are '
              'the very values reported as generated line/column, or both 0; source index 0; no name) and it announces exactly (0, its name '
              'field, Some(its own text)), field roles taken from the public constructor (IDENT). NOT decided: provenance through '
-             'Concat/Replace/Cached, statement-start resolution, columns=false attribution. Added: ConcatSource\'s pending-close flag is sticky (cleared only after a test that found it set, otherwise OR-carried), so an empty child cannot swallow the segment that un-maps following raw text (STICKY). Still NOT decided: position arithmetic of ReplaceSource\'s generated-end info (seeded C04-m2 is not detected). Round 4: FORWARD-ALL — no path through ConcatSource\'s chunk handler swallows a child\'s notification (found the closing-position defect of nested composites in final-source mode, fixed as 988c728). ENC-OMIT — the line-only encoder emits its constant "same file, next line" form only after comparing the file. SIBLING-SPLICE registered here as well (a cached ReplaceSource is replayed from rope()).',
-        technique='def-use equality of aggregate operands on MIR',
+             'Concat/Replace/Cached, statement-start resolution, columns=false attribution. Added: ConcatSource\'s pending-close flag is sticky (cleared only after a test that found it set, otherwise OR-carried), so an empty child cannot swallow the segment that un-maps following raw text (STICKY). Still NOT decided: position arithmetic of ReplaceSource\'s generated-end info (seeded C04-m2 is not detected). Round 4: FORWARD-ALL — no path through ConcatSource\'s chunk handler swallows a child\'s notification (found the closing-position defect of nested composites in final-source mode, fixed as 988c728). ENC-OMIT — the line-only encoder emits its constant "same file, next line" form only after comparing the file. SIBLING-SPLICE registered here as well (a cached ReplaceSource is replayed from rope()). Round 8: PREFIX-SUM - every (piece, offset) pair built for a rope chunk vector stores 0, a total of the vector it is appended to, or a running accumulator whose next update adds exactly the length of the stored piece; existing pairs are not copied verbatim into a vector that already holds one. Offsets of any other form are reported as unrecognised and not decided.',
+        technique='def-use equality of aggregate operands on MIR; post-dominator / path rules on forwarding and encoder state; symbolic length matching of rope offset accumulators',
         design_ref='§5 C04'),
     'C06': dict(
         category='other',
@@ -143,7 +143,7 @@ CLAIMS = {
              'either forwards the child numbering unchanged or renumbers through its tables, and every OriginalLocation it builds takes the index '
              'from the matching origin; a child-local index never leaks into a renumbered space (IDX: closure-, table- and adaptor-aware origin '
              'analysis); ReplaceSource advances the original column only under the content check (ADVANCE). NOT decided: positions, that the '
-             'translated entry is the right one beyond its numbering, the amount of the advance. Added: the guard\'s verdict is the content check\'s own result for that site, not a remembered one (ADVANCE freshness); a chunk delivered with the child\'s own location object counts as child-local for both index kinds (IDX forwarded). Round 4: FORWARD-ALL — ConcatSource forwards every child notification (or records a pending close) on every path. STICKY registered here as well (an empty child must not clear the pending close). TEE-FORWARD registered here as well. COLLECTOR-SIBLING registered here as well.',
+             'translated entry is the right one beyond its numbering, the amount of the advance. Added: the guard\'s verdict is the content check\'s own result for that site, not a remembered one (ADVANCE freshness); a chunk delivered with the child\'s own location object counts as child-local for both index kinds (IDX forwarded). Round 4: FORWARD-ALL — ConcatSource forwards every child notification (or records a pending close) on every path. STICKY registered here as well (an empty child must not clear the pending close). TEE-FORWARD registered here as well. COLLECTOR-SIBLING registered here as well. Round 8: ALLOC-DEDUP - a fresh index is allocated (len() of a de-duplication map inserted into it) only on the miss edge of a lookup in that map, so re-inserting a present key cannot make the next len() repeat an announced index. Round 8: PREFIX-DIRECTION - where recorded original content (a WithIndices substring) is compared with streamed text by starts_with, the recorded content is the haystack.',
         technique='index-space origin (taint-style) dataflow over MIR expression trees with closure capture and table summaries; guard provenance',
         design_ref='§5 C06'),
     'C08': dict(
@@ -159,7 +159,7 @@ CLAIMS = {
         text='Static: the index-table discipline of the combined-map combinator — both index kinds are renumbered and both emitting '
              'aggregates take source/name indices only from the announced (global) numbering or tables filled from it; outer/inner local '
              'indices are used as keys only (IDX); each of its six de-duplication inserts stores len() and is followed by the announcement of '
-             'that value (PAIR). NOT decided: the binary search, identity-column adjustment, name matching, fallback semantics. Added: an announced fresh index is paired with an insertion into the same de-duplication map (PAIR converse); outer-name lookups that can reach an inner-mapped location are dominated by the name-vs-original-text comparison (NAMECHECK). Round 3: KEYSPACE and SIDES (translation tables are keyed in one numbering; tables handed to one helper belong to one child stream). Round 4: CTOR-VERBATIM — SourceMapSource constructors store the remove_original_source request as given. Round 5: CTOR-VERBATIM covers every constructor field (value, name, maps, original source), not only the removal flag. Round 6: PREFILL — every lazily resolved translation table (read with a negative sentinel) receives an explicit entry for every announced key on every path of the announcement callback. Round 7: COMBINE-WHEN-INNER - the choice between combined and plain streaming tests the presence of inner_source_map itself.',
+             'that value (PAIR). NOT decided: the binary search, identity-column adjustment, name matching, fallback semantics. Added: an announced fresh index is paired with an insertion into the same de-duplication map (PAIR converse); outer-name lookups that can reach an inner-mapped location are dominated by the name-vs-original-text comparison (NAMECHECK). Round 3: KEYSPACE and SIDES (translation tables are keyed in one numbering; tables handed to one helper belong to one child stream). Round 4: CTOR-VERBATIM — SourceMapSource constructors store the remove_original_source request as given. Round 5: CTOR-VERBATIM covers every constructor field (value, name, maps, original source), not only the removal flag. Round 6: PREFILL — every lazily resolved translation table (read with a negative sentinel) receives an explicit entry for every announced key on every path of the announcement callback. Round 7: COMBINE-WHEN-INNER - the choice between combined and plain streaming tests the presence of inner_source_map itself. Round 8: ALLOC-DEDUP - a fresh index is allocated (len() of a de-duplication map inserted into it) only on the miss edge of a lookup in that map, so re-inserting a present key cannot make the next len() repeat an announced index. Round 8: the removal flag handed to the combinator is the stored remove_original_source field itself (flag clause of COMBINE-WHEN-INNER).',
         technique='index-space origin dataflow + post-dominator pairing on MIR',
         design_ref='§5 C09'),
     'C11': dict(
@@ -167,8 +167,8 @@ CLAIMS = {
         text='Static: in every chunk stream each new index is dense (len() of the de-duplication map) and announced with that same value '
              'on every path after insertion (PAIR, 10 sites); eager announcers complete before delivery and never-announced names are never '
              'emitted (EAGER); indices used come from the announced numbering (IDX); the mappings string consists only of base64 digits, "," '
-             'and ";" (ALPHABET, sound for that clause). NOT decided: strictly increasing positions, lines >= 1, positions inside the text. Added: PAIR converse and IDX forwarded (see C09/C06). Still NOT decided: position arithmetic (seeded C11-m1 is not detected). Round 5: TEE-FORWARD — the cache-filling tee forwards every chunk / source / name notification to the caller on every path. PREFILL registered here as well (an unfilled gap reads as index 0, an index inside the tables but of the wrong file).',
-        technique='post-dominator pairing, loop ordering, origin dataflow, constant byte-set dataflow on MIR',
+             'and ";" (ALPHABET, sound for that clause). NOT decided: strictly increasing positions, lines >= 1, positions inside the text. Added: PAIR converse and IDX forwarded (see C09/C06). Still NOT decided: position arithmetic (seeded C11-m1 is not detected). Round 5: TEE-FORWARD — the cache-filling tee forwards every chunk / source / name notification to the caller on every path. PREFILL registered here as well (an unfilled gap reads as index 0, an index inside the tables but of the wrong file). Round 8: ALLOC-DEDUP - a fresh index is allocated (len() of a de-duplication map inserted into it) only on the miss edge of a lookup in that map, so re-inserting a present key cannot make the next len() repeat an announced index. Round 8: PREFIX-SUM - every (piece, offset) pair built for a rope chunk vector stores 0, a total of the vector it is appended to, or a running accumulator whose next update adds exactly the length of the stored piece; existing pairs are not copied verbatim into a vector that already holds one. Offsets of any other form are reported as unrecognised and not decided.',
+        technique='post-dominator pairing, loop ordering, origin dataflow, constant byte-set dataflow on MIR; lookup-miss edge dominance; symbolic length matching of rope offset accumulators',
         design_ref='§5 C11'),
 }
 
